@@ -27,6 +27,8 @@ pub enum Op {
 pub struct StreamCase {
     pub cap: usize,
     pub gz_level: u32,
+    /// earlier builder calls, made before with_chunk_size(cap).with_gzip_level(gz_level): (0, n) = with_chunk_size(n), (1, l) = with_gzip_level(l)
+    pub pre_calls: Vec<(u64, u64)>,
     pub method: String,
     pub accept_encoding: Option<Vec<u8>>,
     pub use_parts: bool,
@@ -69,11 +71,17 @@ pub fn run(case: &StreamCase) -> StreamOutcome {
     }
     let req = rb.body(()).unwrap();
     let built = catch_unwind(AssertUnwindSafe(|| {
+        let pre = |mut b: http_serve::StreamingBodyBuilder| {
+            for (k, x) in &case.pre_calls {
+                b = if *k == 0 { b.with_chunk_size(*x as usize) } else { b.with_gzip_level(*x as u32) };
+            }
+            b
+        };
         if case.use_parts {
             let (parts, _) = req.into_parts();
-            http_serve::streaming_body(&parts).with_chunk_size(case.cap).with_gzip_level(case.gz_level).build::<Bytes, BoxError>()
+            pre(http_serve::streaming_body(&parts)).with_chunk_size(case.cap).with_gzip_level(case.gz_level).build::<Bytes, BoxError>()
         } else {
-            http_serve::streaming_body(&req).with_chunk_size(case.cap).with_gzip_level(case.gz_level).build::<Bytes, BoxError>()
+            pre(http_serve::streaming_body(&req)).with_chunk_size(case.cap).with_gzip_level(case.gz_level).build::<Bytes, BoxError>()
         }
     }));
     let (resp, writer) = match built {
@@ -229,6 +237,7 @@ fn input_val(case: &StreamCase, executed: &[Op]) -> Val {
         // what the crate's own should_gzip says about this Accept-Encoding (C17 is stated relative to it;
         // the function itself is C16's subject): 0 false, 1 true, 2 panic
         Val::N(crate::negot::run_should_gzip(&case.accept_encoding)),
+        Val::L(case.pre_calls.iter().map(|(k, x)| Val::L(vec![Val::N(*k), Val::N(*x)])).collect()),
     ])
 }
 
@@ -255,6 +264,10 @@ pub fn case_of_input(v: &Val) -> Option<StreamCase> {
         method: String::from_utf8(l[2].as_b()?.clone()).ok()?,
         accept_encoding: l[3].as_opt()?.map(|v| v.as_b().cloned()).flatten(),
         use_parts: l[4].as_n()? != 0,
+        pre_calls: match l.get(7).and_then(|v| v.as_list()) {
+            Some(cs) => cs.iter().filter_map(|c| { let c = c.as_list()?; Some((c[0].as_n()?, c[1].as_n()?)) }).collect(),
+            None => vec![],
+        },
         ops,
         class: "replay".into(),
     })
